@@ -26,7 +26,7 @@ TECHNIQUE = 'deterministic simulation of put and restore on generated symlink co
 LEVEL_TEXT = 'seeded exploration of link kinds x spellings x volumes; the target subtree must be snapshot-identical after every command'
 LEVEL_NOTE = 'trusted: snapshot function (readlink translated back to virtual paths), model decoder'
 
-LINKS = ['file', 'dir', 'dangling', 'chain', 'chain_dir', 'self', 'other_vol_file', 'other_vol_dir', 'abs_dir', 'up_rel']
+LINKS = ['file', 'dir', 'dangling', 'chain', 'chain_dir', 'self', 'other_vol_file', 'other_vol_dir', 'abs_dir', 'up_rel', 'root_abs', 'root_rel', 'root_chain']
 
 
 def gen(rng):
@@ -70,6 +70,14 @@ def gen(rng):
         steps.append(['l', p, oaux + '/odir'])
     elif kind == 'abs_dir':
         steps.append(['l', p, aux + '/tdir/subdir'])
+    elif kind == 'root_abs':
+        # sysroot -> / (chroots, container images): the link is an ordinary entry, whatever it points at
+        steps.append(['l', p, '/'])
+    elif kind == 'root_rel':
+        steps.append(['l', p, '/'.join(['..'] * wd.count('/'))])
+    elif kind == 'root_chain':
+        steps.append(['l', aux + '/toroot', '/'])
+        steps.append(['l', p, aux + '/toroot'])
     else:
         steps.append(['l', p, '..'])
     via = rng.random() < 0.3
